@@ -391,10 +391,25 @@ P(name="cont_array_set", props={"C12": [], "C04": [], "C06": [], "C01": SAFETY},
   contracts=CONT_CONTRACTS, harness="harness/ops.c", defines=["H_ARRAY_SET"], enforce=None, also_verified=["cbor_array_set"],
   replace=["cbor_array_push", "cbor_array_replace"], must_exist=[r"cbor_array_push\.precondition\.\d+"], min_covers=4, cost=120, timeout=900)
 CONT("cbor_new_indefinite_map", ["H_CTOR", "CALL=cbor_new_indefinite_map()"], must=4, covers=2, cost=3)
-CONT("_cbor_map_add_key", ["H_MAP_ADD_KEY"], replace=["cbor_isa_map", "cbor_map_is_definite", "cbor_map_handle", "_cbor_safe_to_multiply", "cbor_incref"],
-     must=8, covers=7, cost=60, timeout=900)
+# _cbor_map_add_key / cbor_map_add: one query over all cases ran out of memory (arrays of two-pointer structs of
+# symbolic length through the realloc model); the contract is discharged as two case proofs that together are
+# exhaustive: no reallocation possible (definite, or indefinite with room) and a full indefinite map.  The growth
+# case additionally bounds the capacity (bounded stand-in) because the realloc copy of a symbolic-length pair
+# array did not finish on any back end.
+MAPKEY_REPL = ["cbor_isa_map", "cbor_map_is_definite", "cbor_map_handle", "_cbor_safe_to_multiply", "cbor_incref"]
+P(name="cont_map_add_key_nogrow", props=dict(CONT_PROPS), lib=ITEMLIB, stubs=ITEM_STUBS + ["stubs/decref_ghost.c"],
+  contracts=CONT_CONTRACTS, harness="harness/ops.c", defines=["H_MAP_ADD_KEY", "MAP_CASE_NOGROW"], enforce="_cbor_map_add_key",
+  replace=MAPKEY_REPL, must_exist=[r"_cbor_map_add_key\.postcondition\.8"], min_covers=3, cost=120, timeout=900)
+P(name="cont_map_add_key_grow_bounded", kind="bounded", bound="growth of indefinite maps with capacity <= 4 (0,1,2,4 -> 1,2,4,8); refusal and success",
+  props=dict(CONT_PROPS), lib=ITEMLIB, stubs=ITEM_STUBS + ["stubs/decref_ghost.c"],
+  contracts=CONT_CONTRACTS, harness="harness/ops.c", defines=["H_MAP_ADD_KEY", "MAP_CASE_GROW", "MAP_GROW_BOUND=4"], enforce="_cbor_map_add_key",
+  replace=MAPKEY_REPL, must_exist=[r"_cbor_map_add_key\.postcondition\.8"], min_covers=3, cost=120, timeout=900)
 CONT("_cbor_map_add_value", ["H_MAP_ADD_VALUE"], replace=["cbor_isa_map", "cbor_map_handle", "cbor_incref"], must=2, covers=2, cost=30)
-CONT("cbor_map_add", ["H_MAP_ADD"], replace=["cbor_isa_map", "_cbor_map_add_key", "_cbor_map_add_value"], must=6, covers=7, cost=60, timeout=900)
+for case, cov in (("NOGROW", 3), ("GROW", 3)):
+    P(name="cont_map_add_" + case.lower(), props=dict(CONT_PROPS), lib=ITEMLIB, stubs=ITEM_STUBS + ["stubs/decref_ghost.c"],
+      contracts=CONT_CONTRACTS, harness="harness/ops.c", defines=["H_MAP_ADD", "MAP_CASE_" + case], enforce="cbor_map_add",
+      replace=["cbor_isa_map", "_cbor_map_add_key", "_cbor_map_add_value"], must_exist=[r"cbor_map_add\.postcondition\.6"],
+      min_covers=cov, cost=120, timeout=900)
 CONT("cbor_bytestring_add_chunk", ["H_ADD_CHUNK", "MK=mk_indef_bytestring", "MKCHUNK=mk_def_bytestring", "ADD_CHUNK=cbor_bytestring_add_chunk"],
      replace=["cbor_isa_bytestring", "cbor_bytestring_is_indefinite", "cbor_bytestring_is_definite", "_cbor_safe_to_multiply", "cbor_incref"],
      must=6, covers=5, cost=60, timeout=900)
@@ -524,3 +539,11 @@ for w in ("0", "1", "2", "3"):
 COPY("DEF_BYTESTRING", replace=["cbor_build_bytestring"])
 COPY("DEF_STRING", replace=["cbor_build_stringn"])
 COPY("TAG", replace=["cbor_tag_item/cbor_tag_item__hered", "cbor_move/cbor_move__hered", "cbor_build_tag", "cbor_decref"])
+
+# ------------------------------------------------------------------------------------------------
+# cbor_load (C05 first: empty input)
+LOADLIB = COPYLIB
+LOAD_CONTRACTS = CONT_CONTRACTS + ["contracts/stack.h", "contracts/load.h"]
+P(name="load_empty_input", props={"C05": FUNC + FRAME, "C01": SAFETY, "C13": []}, lib=LOADLIB, stubs=COPY_STUBS,
+  contracts=LOAD_CONTRACTS, harness="harness/load.c", defines=["H_LOAD_EMPTY"], enforce="cbor_load", unwind=1,
+  replay="load", must_exist=[r"cbor_load\.postcondition\.3"], min_covers=1, cost=10, object_bits=10)
